@@ -1,8 +1,11 @@
 package main
 
 import (
+	"os"
+	"os/exec"
 	"path/filepath"
 	"sort"
+	"strings"
 )
 
 type evidence struct {
@@ -102,7 +105,7 @@ func writeEvidence(id, tier string, seed int, ps *PropertySpec, res map[string]*
 		"path_outcomes":                 outcomes,
 		"queries":                       queries,
 		"solver_time_s":                 solverS,
-		"solvers":                       []string{"z3 4.8.12 (-in, incremental)"},
+		"solvers":                       []string{solverVersion()},
 		"instructions_interpreted":      instrs,
 		"functions_encoded":             sortedKeys(funcs),
 		"intrinsics_hit":                sortedKeys(intr),
@@ -121,4 +124,18 @@ func writeEvidence(id, tier string, seed int, ps *PropertySpec, res map[string]*
 	ev := evidence{PropertyID: id, Tier: tier, Seed: seed, Level: "model_checking", Coverage: cov,
 		Assumptions: ass, WallS: wall, Violations: violations}
 	writeJSON(evidencePath(id), ev)
+}
+
+func solverVersion() string {
+	bin := "z3-new"
+	if b := os.Getenv("SYMGO_SOLVER"); b != "" {
+		bin = strings.Fields(b)[0]
+	} else if _, err := exec.LookPath(bin); err != nil {
+		bin = "z3"
+	}
+	out, err := exec.Command(bin, "--version").Output()
+	if err != nil {
+		return bin
+	}
+	return bin + ": " + strings.TrimSpace(string(out)) + " (-in, incremental push/pop)"
 }
